@@ -24,16 +24,17 @@ import (
 type c14Call struct {
 	Dir      string `json:"dir,omitempty"` // stream: recv | send
 	Grant    bool   `json:"grant"`
-	Err      int    `json:"err"`      // error the wrapped call returns: 0 nil, 1 generic, 2 io.EOF, 3 context.Canceled, 4 gRPC status, 5 context.DeadlineExceeded, 6 io.ErrUnexpectedEOF
-	Resp     int    `json:"resp"`     // which response object the wrapped call returns (0 = nil)
-	Classify int    `json:"classify"` // custom classifier's answer: 0 success, 1 ignore, 2 dropped
-	Code     int    `json:"code"`     // custom limit-exceeded classifier's status code
+	Err      int    `json:"err"`               // error the wrapped call returns: 0 nil, 1 generic, 2 io.EOF, 3 context.Canceled, 4 gRPC status, 5 context.DeadlineExceeded, 6 io.ErrUnexpectedEOF
+	Resp     int    `json:"resp"`              // which response object the wrapped call returns (0 = nil)
+	Classify int    `json:"classify"`          // custom classifier's answer: 0 success, 1 ignore, 2 dropped
+	Code     int    `json:"code"`              // custom limit-exceeded classifier's status code
+	ExcErr   int    `json:"exc_err,omitempty"` // error the custom limit-exceeded classifier returns next to the code: 0 plain, 1 a gRPC status error carrying another code, 2 such a status error wrapped with %w
 }
 
 type c14Case struct {
 	Kind           string    `json:"kind"` // server | client | stream
 	CustomLimiter  bool      `json:"custom_limiter"`
-	CustomRecvOnly bool      `json:"custom_recv_only,omitempty"`
+	StreamCustom   string    `json:"stream_custom,omitempty"` // stream + custom_limiter: "" both limiters configured | recv | send: only that one (the other stays the default)
 	CustomClass    bool      `json:"custom_classifier"`
 	CustomExceeded bool      `json:"custom_exceeded"`
 	Named          bool      `json:"named,omitempty"`
@@ -49,6 +50,9 @@ func genC14(t *rapid.T) c14Case {
 		CustomExceeded: rapid.Bool().Draw(t, "ce"),
 		Named:          rapid.Bool().Draw(t, "named"),
 	}
+	if c.Kind == "stream" && c.CustomLimiter {
+		c.StreamCustom = rapid.SampledFrom([]string{"", "", "recv", "send"}).Draw(t, "streamCustom")
+	}
 	call := rapid.Custom(func(t *rapid.T) c14Call {
 		return c14Call{
 			Dir:      rapid.SampledFrom([]string{"recv", "send"}).Draw(t, "dir"),
@@ -57,6 +61,7 @@ func genC14(t *rapid.T) c14Case {
 			Resp:     rapid.IntRange(0, 3).Draw(t, "resp"),
 			Classify: rapid.IntRange(0, 2).Draw(t, "classify"),
 			Code:     rapid.IntRange(1, 16).Draw(t, "code"),
+			ExcErr:   rapid.SampledFrom([]int{0, 0, 1, 2}).Draw(t, "excErr"),
 		}
 	})
 	c.Calls = rapid.SliceOfN(call, 1, 20).Draw(t, "calls")
@@ -123,7 +128,15 @@ func runC14(_ *testing.T, c c14Case) (out kit.Outcome) {
 	exceededResp := &struct{ x int }{42}
 	exceeded := func(ctx context.Context, method string, req interface{}, l core.Limiter) (interface{}, codes.Code, error) {
 		log.add("exceeded-classifier(%v)", l)
-		return exceededResp, codes.Code(cur.Code), errors.New("over the limit")
+		var err error = errors.New("over the limit")
+		other := codes.Code(cur.Code%16 + 1) // a code different from the chosen one
+		switch cur.ExcErr {
+		case 1:
+			err = status.Error(other, "downstream said no")
+		case 2:
+			err = fmt.Errorf("shedding: %w", status.Error(other, "downstream said no"))
+		}
+		return exceededResp, codes.Code(cur.Code), err
 	}
 	resps := []any{nil, &struct{ a int }{1}, "text", 7}
 	callErrs := []error{nil, errors.New("wrapped call failed"), io.EOF, context.Canceled, status.Error(codes.Unavailable, "down"), context.DeadlineExceeded, io.ErrUnexpectedEOF}
@@ -164,8 +177,11 @@ func runC14(_ *testing.T, c c14Case) (out kit.Outcome) {
 		if c.Named {
 			opts = append(opts, gcl.WithStreamRecvName("r"), gcl.WithStreamSendName("s"))
 		}
-		if c.CustomLimiter {
-			opts = append(opts, gcl.WithStreamRecvLimiter(recvL), gcl.WithStreamSendLimiter(sendL))
+		if c.CustomLimiter && c.StreamCustom != "send" {
+			opts = append(opts, gcl.WithStreamRecvLimiter(recvL))
+		}
+		if c.CustomLimiter && c.StreamCustom != "recv" {
+			opts = append(opts, gcl.WithStreamSendLimiter(sendL))
 		}
 		if c.CustomExceeded {
 			opts = append(opts, gcl.WithStreamRecvLimitExceededResponseClassifier(exceeded), gcl.WithStreamSendLimitExceededResponseClassifier(exceeded))
@@ -185,7 +201,8 @@ func runC14(_ *testing.T, c c14Case) (out kit.Outcome) {
 	check := func(i int) *kit.Outcome {
 		call := c.Calls[i]
 		cur = call
-		grant = call.Grant || !c.CustomLimiter // the default limiter (limit 1000) always grants here
+		custom := c.CustomLimiter && (c.Kind != "stream" || c.StreamCustom == "" || c.StreamCustom == call.Dir)
+		grant = call.Grant || !custom // the default limiter (limit 1000) always grants here
 		mark := len(log.ev)
 		wantErr := callErrs[call.Err%len(callErrs)]
 		wantResp := resps[call.Resp]
@@ -283,7 +300,7 @@ func runC14(_ *testing.T, c c14Case) (out kit.Outcome) {
 			sawRecv = sawRecv || call.Dir == "recv"
 			sawSend = sawSend || call.Dir == "send"
 		}
-		if !c.CustomLimiter {
+		if !custom {
 			// default limiter: only the wrapped call and the classifier are observable
 			want := "call"
 			if c.Kind == "stream" {
@@ -293,6 +310,10 @@ func runC14(_ *testing.T, c c14Case) (out kit.Outcome) {
 			for _, e := range ev {
 				if e == want {
 					n++
+				}
+				if strings.HasPrefix(e, "acquire(") {
+					o := kit.Viol(c.Kind+":wrong-limiter", "call %d %+v runs on the default %s limiter, yet a configured limiter was asked: [%s]", i, call, limName, desc)
+					return &o
 				}
 			}
 			if n != 1 {
@@ -336,6 +357,9 @@ func runC14(_ *testing.T, c c14Case) (out kit.Outcome) {
 	}
 	out.NonTrivial = sawRefusal && sawGrant && sawNonSuccess && (c.Kind != "stream" || (sawRecv && sawSend))
 	out.Labels = []string{"kind:" + c.Kind, fmt.Sprintf("custom-limiter:%v", c.CustomLimiter)}
+	if c.StreamCustom != "" {
+		out.Labels = append(out.Labels, "stream-one-limiter-configured")
+	}
 	return out
 }
 
